@@ -360,9 +360,9 @@ def generate(ctx):
     rng = ctx.rng
     big = ctx.tier_search == "thorough"
     cases = []
-    for _ in range(700 if not big else 6000):
+    for _ in range(700 if not big else 2000):
         cases.append(gen_case(rng))
-    for _ in range(40 if not big else 300):
+    for _ in range(40 if not big else 150):
         cases.append(gen_case(rng, owned=True))
     # offsetof / addressof with integer arguments
     for item, size in STATIC_ITEMS:
